@@ -207,6 +207,96 @@ def random_history(rng, k, nvals, length):
     return ops
 
 
+# ---------------------------------------------------------------- source level (ffi/lists.rs + VM)
+class ListProg:
+    """random Numbat programs over list values: nested cons / cons_end / tail / head / len / == on
+    variables that share storage and on temporaries; the expected print output is computed on
+    Python lists (the immutable-sequence specification)."""
+
+    def __init__(self, rng):
+        self.rng = rng
+        self.vars = {}          # name -> python list
+        self.stmts = []
+        self.expected = []      # printed lines
+        self.error = None
+
+    def lit(self, l):
+        return "[" + ", ".join(str(x) for x in l) + "]"
+
+    def expr(self, depth):
+        """-> (source, value) with value a python list; raises IndexError for tail of empty"""
+        r = self.rng.random()
+        if depth <= 0 or r < 0.25:
+            if self.vars and self.rng.random() < 0.75:
+                n = self.rng.choice(sorted(self.vars))
+                return n, list(self.vars[n])
+            l = [self.rng.randrange(10) for _ in range(self.rng.randrange(1, 5))]
+            return self.lit(l), l
+        src, v = self.expr(depth - 1)
+        x = self.rng.randrange(10, 99)
+        if r < 0.50:
+            return "cons(%d, %s)" % (x, src), [x] + v
+        if r < 0.70:
+            return "cons_end(%d, %s)" % (x, src), v + [x]
+        if not v:
+            raise IndexError
+        return "tail(%s)" % src, v[1:]
+
+    def build(self, nstmts):
+        for i in range(nstmts):
+            r = self.rng.random()
+            try:
+                src, v = self.expr(self.rng.randrange(1, 6))
+            except IndexError:
+                continue
+            if r < 0.45:
+                name = "l%d" % len(self.vars) if (not self.vars or self.rng.random() < 0.6) \
+                    else self.rng.choice(sorted(self.vars))
+                self.stmts.append("let %s = %s" % (name, src))
+                self.vars[name] = v
+            elif r < 0.60:
+                self.stmts.append("print(%s)" % src)
+                self.expected.append(self.lit(v))
+            elif r < 0.72:
+                self.stmts.append("print(len(%s))" % src)
+                self.expected.append(str(len(v)))
+            elif r < 0.82 and v:
+                self.stmts.append("print(head(%s))" % src)
+                self.expected.append(str(v[0]))
+            elif self.vars:
+                o = self.rng.choice(sorted(self.vars))
+                self.stmts.append("print(%s == %s)" % (src, o))
+                self.expected.append("true" if v == self.vars[o] else "false")
+            # every variable must still hold what the specification says
+            if self.vars and self.rng.random() < 0.5:
+                n = self.rng.choice(sorted(self.vars))
+                self.stmts.append("print(%s)" % n)
+                self.expected.append(self.lit(self.vars[n]))
+        for n in sorted(self.vars):
+            self.stmts.append("print(%s)" % n)
+            self.expected.append(self.lit(self.vars[n]))
+        return self
+
+
+def run_source_level(chk, binary, nprog):
+    progs = [ListProg(chk.rng).build(chk.rng.randrange(4, 14)) for _ in range(nprog)]
+    fixed = ListProg(chk.rng)
+    fixed.stmts = ["print(cons(1, cons(2, tail([7, 8, 9]))))", "let a = [1, 2, 3]", "let b = tail(a)",
+                   "let c = cons(9, b)", "print(a)", "print(b)", "print(c)", "print(cons_end(4, tail(tail(a))))", "print(a)"]
+    fixed.expected = ["[1, 2, 8, 9]", "[1, 2, 3]", "[2, 3]", "[9, 2, 3]", "[4]".replace("[4]", "[3, 4]"), "[1, 2, 3]"]
+    progs.insert(0, fixed)
+    lines = ["use core::lists ;;; " + " ;; ".join(p.stmts) for p in progs]
+    out = common.run_harness(binary, "vm", lines)
+    bad = []
+    for p, o in zip(progs, out):
+        head = o.split(" ## D:")[0]
+        res, _, printed = head.partition(" ## O:")
+        got = printed.split("\u241e") if printed else []
+        if res.strip() not in ("R:C",) or got != p.expected:
+            bad.append((p, res.strip(), got))
+    return progs, bad
+
+
 def run(chk):
     binary, _ = common.build_harness()
     proved = chk.prove("Props.C18", THEOREMS,
@@ -278,6 +368,59 @@ def run(chk):
         found += 1
         if found >= 3:
             break
+    # ---- the same property at source level: cons / cons_end / tail / head / len / == through the FFI and the VM
+    progs, sbad = run_source_level(chk, binary, 300 if quick else 4000)
+    for p, res, got in sbad[:max(0, 3 - found)]:
+        def sfails(stmts, p=p):
+            q = ListProg(chk.rng)
+            # recompute the expectation of the reduced program by re-evaluating it on python lists
+            env, exp = {}, []
+            import re as _re
+
+            def ev(src):
+                src = src.strip()
+                m = _re.match(r"^(cons|cons_end)\((\d+), (.*)\)$", src)
+                if m:
+                    v = ev(m.group(3))
+                    return [int(m.group(2))] + v if m.group(1) == "cons" else v + [int(m.group(2))]
+                m = _re.match(r"^tail\((.*)\)$", src)
+                if m:
+                    v = ev(m.group(1))
+                    if not v:
+                        raise IndexError
+                    return v[1:]
+                if src.startswith("["):
+                    return [int(x) for x in src[1:-1].split(",") if x.strip()]
+                return list(env[src])
+            try:
+                for st in stmts:
+                    m = _re.match(r"^let (\w+) = (.*)$", st)
+                    if m:
+                        env[m.group(1)] = ev(m.group(2))
+                        continue
+                    inner = st[len("print("):-1]
+                    if inner.startswith("len("):
+                        exp.append(str(len(ev(inner[4:-1]))))
+                    elif inner.startswith("head("):
+                        exp.append(str(ev(inner[5:-1])[0]))
+                    elif " == " in inner:
+                        a, b = inner.rsplit(" == ", 1)
+                        exp.append("true" if ev(a) == ev(b) else "false")
+                    else:
+                        exp.append(q.lit(ev(inner)))
+            except (KeyError, IndexError, ValueError):
+                return False
+            o = common.run_harness(binary, "vm", ["use core::lists ;;; " + " ;; ".join(stmts)], shards=1)[0]
+            head = o.split(" ## D:")[0]
+            r_, _, pr = head.partition(" ## O:")
+            return r_.strip() != "R:C" or (pr.split("\u241e") if pr else []) != exp
+        small = common.shrink_list(p.stmts, sfails) if sfails(p.stmts) else p.stmts
+        chk.violation({
+            "kind": "a Numbat program over shared list values prints something else than immutable sequences would",
+            "program": small, "implementation_result": res, "implementation_prints": got, "expected_prints": p.expected,
+            "replay": "numbat -e 'use core::lists' -e '<each statement>'",
+        })
+        found += 1
     if not found and (bad or not proved):
         n = min(bad) if bad else None
         chk.violation({
@@ -298,7 +441,9 @@ def run(chk):
         "exhaustive": False,
         "op_histogram": dict(opcount),
         "model_mismatches": len(bad),
-        "samples": [{"slots": cases[n][0], "ops": cases[n][1], "implementation": impl[n]}
+        "source_level_programs": len(progs), "source_level_statements": sum(len(p.stmts) for p in progs),
+        "source_level_failures": len(sbad),
+        "samples": [{"program": progs[1].stmts, "expected_prints": progs[1].expected}] + [{"slots": cases[n][0], "ops": cases[n][1], "implementation": impl[n]}
                     for n in (0, len(corpus) + 5, len(cases) - 1)],
     })
     chk.assumptions += ["strong_count is the number of live handles held by the harness (no other owners)",
